@@ -389,6 +389,8 @@ def search_kv(ck: Check) -> None:
     then the thorough family"""
     from . import c18 as base
 
+    if not any(d.campaign.startswith("KeyValue.") for d in ck.disagreements) and not any(t.startswith("keyvalue_") for t in ck.broken):
+        return   # nothing about the value-carrying options broke
     cases = []
     for d in ck.disagreements:
         inp = d.input if isinstance(d.input, dict) else {}
